@@ -107,10 +107,16 @@ def synthetic_labels(res, rnd):
         oid = rnd.choice([3, 7, 12, 4278190080])
         cn = number_to_letter_id(rnd.choice(ords), True)
         other = number_to_letter_id(rnd.choice(ords), True)
+        if other == cn:
+            other = cn + 'A'
         ob = (oid, g, 'wl_surface')
         near = [(oid, g + 1, 'wl_surface'), (oid, max(g - 1, 0), 'wl_surface'), (oid + 1, g, 'wl_surface'), (oid, g + 26, 'wl_surface')]
         msgs = [dict(conn=cn, obj=ob, name='commit', args=[], destroyed=None),
                 dict(conn=other, obj=ob, name='commit', args=[], destroyed=None),
+                # the like-labelled object of ANOTHER connection being mentioned, created and destroyed there
+                dict(conn=other, obj=(5, 0, 'wl_pointer'), name='enter', args=[('serial', 'int', 1, None), ('surface', 'obj', ob, False)], destroyed=None),
+                dict(conn=other, obj=(2, 0, 'wl_compositor'), name='create_surface', args=[('id', 'obj', ob, True)], destroyed=None),
+                dict(conn=other, obj=(1, 0, 'wl_display'), name='delete_id', args=[('id', 'int', oid, None)], destroyed=ob),
                 dict(conn=cn, obj=(1, 0, 'wl_display'), name='delete_id', args=[('id', 'int', oid, None)], destroyed=ob),
                 dict(conn=cn, obj=(2, 0, 'wl_compositor'), name='create_surface', args=[('id', 'obj', ob, True)], destroyed=None),
                 dict(conn=cn, obj=(5, 0, 'wl_pointer'), name='enter', args=[('serial', 'int', 1, None), ('surface', 'obj', ob, False)], destroyed=None)]
